@@ -57,4 +57,8 @@ M = [
  ("c11-main-df-format", ["C11"], J+"main.rs", '.map(|df| df.into_iter().map(|v| format!("{}", v)).collect()),', '.map(|df| df.into_iter().map(|v| format!("{:02}", v)).collect()),'),
  ("c11-main-file-unfiltered", ["C11"], J+"main.rs", "        if let Ok(json) = serde_json::to_string(&msg) {\n            if is_in {\n                if options.verbose {\n                    println!(\"{}\", json);\n                }\n", "        if let Ok(json) = serde_json::to_string(&msg) {\n            if is_in && options.verbose {\n                println!(\"{}\", json);\n            }\n            if is_in || msg.message.is_some() {\n"),
  ("c11-main-cli-filter-lost", ["C11"], J+"main.rs", "    if cli_options.aircraft_filter.is_some() {\n        options.aircraft_filter = cli_options.aircraft_filter;\n    }", "    if cli_options.aircraft_filter.is_some() && options.aircraft_filter.is_none() {\n        options.aircraft_filter = cli_options.aircraft_filter.map(|mut v| { v.truncate(1); v });\n    }"),
+ # ---- C06 end to end: jet1090's own loop around decode_position
+ ("c06-main-tisb-shared", ["C06"], J+"main.rs", "                            &cf.aa,\n                            &mut aircraft,", "                            &ICAO(cf.aa.0 >> 8),\n                            &mut aircraft,"),
+ ("c06-main-first-reference", ["C06"], J+"main.rs", "                        let mut reference = references[&serial];\n\n                        decode_position(\n                            &mut adsb.message,", "                        let mut reference = references.values().next().copied().unwrap_or(references[&serial]);\n\n                        decode_position(\n                            &mut adsb.message,"),
+ ("c06-main-timestamp-floor", ["C06"], J+"main.rs", "                            &mut adsb.message,\n                            msg.timestamp,", "                            &mut adsb.message,\n                            msg.timestamp - 3600. * (adsb.icao24.0 & 1) as f64,"),
 ]
